@@ -94,6 +94,15 @@ func classify(w *World, cs *Contracts, ms *ModSets, obls []*Obligation, kf *Know
 					known = true
 				}
 			}
+			if known && f.Replay != "" {
+				// the recorded input must still fail on the real code; if it does not, this failure has another cause
+				if _, err := os.Stat(filepath.Join(verifDir, f.Replay)); err == nil {
+					if !replayStillFails(f.Replay) {
+						known = false
+						ob.Result.Output += "\nknown finding " + f.Obligation + " listed, but its recorded replay " + f.Replay + " no longer fails on the real code: this failure has a different cause\n"
+					}
+				}
+			}
 			if known {
 				oc.known++
 				oc.knownObs = append(oc.knownObs, ob.Name)
@@ -139,4 +148,18 @@ func writeReplayNote(dir string, ob *Obligation, msg string) string {
 	}
 	os.WriteFile(p, []byte(sb.String()), 0o644)
 	return p
+}
+
+var replayCache = map[string]bool{}
+
+// replayStillFails runs a stored replay test against the working tree (exit 1 = REPLAY-CONFIRMED).
+func replayStillFails(rel string) bool {
+	if v, ok := replayCache[rel]; ok {
+		return v
+	}
+	cmd := exec.Command(filepath.Join(verifDir, "tools", "replay.sh"), filepath.Join(verifDir, rel))
+	out, err := cmd.CombinedOutput()
+	fails := err != nil && strings.Contains(string(out), "REPLAY-CONFIRMED")
+	replayCache[rel] = fails
+	return fails
 }
